@@ -118,6 +118,7 @@ package oauth2
 //@   ensures result == requester.GetGrantTypes().ExactOne("authorization_code")
 
 //@ func (*AuthorizeExplicitGrantHandler).HandleTokenEndpointRequest
+//@   modifies anyheap
 //@   let code = formget(old(request.GetRequestForm()), "code")
 //@   let sig  = old(c.AuthorizeCodeStrategy.AuthorizeCodeSignature(ctx, code))
 //@   let used = old(code_exists[sig]) && !old(code_active[sig])
@@ -147,6 +148,7 @@ package oauth2
 //@   ensures [C05.refresh-issuance-rule] result <==> ((len(c.Config.GetRefreshTokenScopes(ctx)) == 0 || request.GetGrantedScopes().HasOneOf(c.Config.GetRefreshTokenScopes(ctx))) && request.GetClient().GetGrantTypes().Has("refresh_token"))
 
 //@ func (*AuthorizeExplicitGrantHandler).PopulateTokenEndpointResponse
+//@   modifies anyheap
 //@   let code = formget(old(requester.GetRequestForm()), "code")
 //@   let sig  = old(c.AuthorizeCodeStrategy.AuthorizeCodeSignature(ctx, code))
 //@   let txl  = implements(c.CoreStorage, storage.Transactional)
@@ -212,6 +214,7 @@ package oauth2
 //@   ensures [C18.reuse-error-class] err != nil ==> ekind(err) == "invalid_request" || ekind(err) == "server_error"
 
 //@ func (*RefreshTokenGrantHandler).HandleTokenEndpointRequest
+//@   modifies anyheap
 //@   let refresh = formget(old(request.GetRequestForm()), "refresh_token")
 //@   let sig  = old(c.RefreshTokenStrategy.RefreshTokenSignature(ctx, refresh))
 //@   let reuse = old(ref_exists[sig]) && !old(ref_active[sig])
@@ -245,6 +248,7 @@ package oauth2
 //@   invariant loop#2 [C05.granted-from-original-only] (forall x string :: insl(request.GetGrantedAudience(), x) ==> insl(old(request.GetGrantedAudience()), x) || insl(originalRequest.GetGrantedAudience(), x))
 
 //@ func (*RefreshTokenGrantHandler).PopulateTokenEndpointResponse
+//@   modifies anyheap
 //@   let refresh = formget(old(requester.GetRequestForm()), "refresh_token")
 //@   let sig  = old(c.RefreshTokenStrategy.RefreshTokenSignature(ctx, refresh))
 //@   let rid  = old(requester.GetID())
